@@ -977,6 +977,37 @@ class NNDescent:
         else:
             self._distance_func = _distance_func
             
+    def _set_sparse_distance_func(self):
+        # Re-derive the metric binding __init__ chose for CSR data (used when
+        # unpickling; self._dist_args already includes any n_features argument)
+        if self.metric in sparse.sparse_named_distances:
+            if self.metric in sparse.sparse_fast_distance_alternatives:
+                _distance_func = sparse.sparse_fast_distance_alternatives[
+                    self.metric
+                ]["dist"]
+                self._distance_correction = sparse.sparse_fast_distance_alternatives[
+                    self.metric
+                ]["correction"]
+            else:
+                _distance_func = sparse.sparse_named_distances[self.metric]
+        elif callable(self.metric):
+            _distance_func = self.metric
+        else:
+            raise ValueError(
+                "Metric {} not supported for sparse data".format(self.metric)
+            )
+
+        if len(self._dist_args) > 0:
+            dist_args = self._dist_args
+
+            @numba.njit()
+            def _partial_dist_func(ind1, data1, ind2, data2):
+                return _distance_func(ind1, data1, ind2, data2, *dist_args)
+
+            self._distance_func = _partial_dist_func
+        else:
+            self._distance_func = _distance_func
+
     def __getstate__(self):
         if not hasattr(self, "_search_graph"):
             self._init_search_graph()
@@ -995,7 +1026,10 @@ class NNDescent:
 
     def __setstate__(self, d):
         self.__dict__ = d
-        self._set_distance_func()
+        if self._is_sparse:
+            self._set_sparse_distance_func()
+        else:
+            self._set_distance_func()
         self._search_forest = tuple(
             [renumbaify_tree(tree) for tree in d["_search_forest"]]
         )
